@@ -111,9 +111,26 @@ def lite_plans(tier, prop):
     return plans
 
 
+def alias_model(report):
+    """design-level argument for C13 (spec/MosAlias.tla): with copy-on-merge the message tree never changes and nothing is
+    shared; with by-reference insertion TLC must find the counterexample (otherwise the model has no teeth)"""
+    from . import tlc
+    ok = tlc.run("MosAlias", "MosAlias_copy.cfg", "alias-copy-" + report.prop, workers=4, timeout=600)
+    ref = tlc.run("MosAlias", "MosAlias_ref.cfg", "alias-ref-" + report.prop, workers=4, timeout=600)
+    if not ok["stats"].get("ok"):
+        report.machinery_error("MosAlias with InsertMode=by_copy does not satisfy its invariants")
+    if ref["stats"].get("ok") or not ref["stats"].get("violated"):
+        report.machinery_error("MosAlias with InsertMode=by_reference was expected to violate NoSharedNodes")
+    return {"by_copy": {"distinct_states": ok["stats"].get("distinct"), "invariants": ["MsgImmutable", "NoSharedNodes", "NoCrossEffect"]},
+            "by_reference": {"violated": ref["stats"].get("violated")}}
+
+
 def life_property(assumptions):
     def run(report, tier, seed):
         cov = pipeline.run_life_check(report, life_plans(tier), seed, tier, expose=(report.prop == "C13"))
+        if report.prop == "C13":
+            cov["alias_model"] = alias_model(report)
+            cov["states"] += cov["alias_model"]["by_copy"]["distinct_states"] or 0
         cov["trusted_base"] = TRUSTED
         cov["checker_cmd"] = "tlc MosLife.tla (exhaustive alphabet histories + -simulate) ; replay on live objects ; tlc Trace_Merge.tla"
         return report.finish(cov, assumptions)
